@@ -19,6 +19,9 @@ func init() {
 			{ID: "ha.stream_backpressure", Pkg: "github.com/codelaboratoryltd/bng/pkg/ha", File: "ha_stream_backpressure.go",
 				Bound: "a connected standby whose writer is stalled while the active pushes 1, 50, 99, 100, 101, 150, 400 changes",
 				Claim: "every accepted change is queued for the standby in push order, or the standby's stream has been ended so that it resynchronises -- never a silent hole"},
+			{ID: "ha.end_to_end", Pkg: "github.com/codelaboratoryltd/bng/pkg/ha", File: "ha_end_to_end.go",
+				Bound: "active and standby over loopback HTTP (full-sync GET + SSE stream); three seeded histories of adds / updates / deletes over 40 session ids: 200 changes, 300 with all connections cut twice, 300 pushed in one burst",
+				Claim: "within 10 s after the active goes quiet the standby's table equals the active's store (ids, IP, State)"},
 		},
 		Undecided: []string{
 			"delivery between PushChange and handleSSEData: Go channels (pendingChanges FIFO, per-client channel), broadcastLoop/broadcastToClients, the SSE framing in sendSSE/connectToStream and the network are not modelled. broadcastToClients used to DROP a change when a standby's channel (cap 100) was full although PushChange had returned nil (found by inspection, spec/replays/inspection_C13_broadcast_drop.go; repaired by af1ecfb: the stalled standby's stream is ended and it resynchronises); the bounded stand-in ha.stream_backpressure watches this layer; handleSSEData still never checks SequenceNum gaps",
